@@ -38,7 +38,7 @@ ASSUMPTIONS = [
 
 def budget(tier):
     if tier == "quick":
-        return dict(examples=30, shards=16, shrink_calls=80)
+        return dict(examples=40, shards=16, shrink_calls=80)
     return dict(examples=700, shards=16, shrink_calls=1200)
 
 
@@ -51,8 +51,15 @@ def _case(draw):
         # edit the network through the API between reading and writing
         f["edit"] = draw(st.sampled_from(["none", "none", "remove+reindex", "reindex", "change-coefficients"]))
         return {"kind": "roundtrip", "file": f}
-    c = draw(c05._case(nmax=10))
+    api = draw(st.integers(0, 3)) == 0
+    c = draw(c05._case(nmax=10, fmt="naunet" if api else None))
     c["kind"] = "export"
+    # the exported project must also carry the rate modifiers (the user's own rate laws); route "api" builds the same
+    # native reactions through the API, i.e. without file indices (modifiers are then positional)
+    c["api"] = api
+    nl = max(1, len(c["lines"]))
+    c["rate_mod"] = draw(st.dictionaries(st.integers(0, nl - 1), st.sampled_from(["0.0", "2.5e-10", "1.0e-9 * sqrt(Tgas)", "-3.0e-11 * exp(-Tgas/100.0)"]), min_size=1, max_size=3)) if draw(st.booleans()) else {}
+    c["rate_mod"] = {str(k): v for k, v in c["rate_mod"].items()}
     c["lines"] = [lr for lr in c["lines"] if not (lr["fmt"] == "kida" and lr["code"] == 6)] or c["lines"][:1]
     for lr in c["lines"]:
         if lr["fmt"] == "kida" and lr["code"] == 6:
@@ -199,14 +206,39 @@ def export_clause(case, failures, labels):
     if fmt == "leeds":
         extra = [F.encode_leeds({"r": ["H2", "CO"], "p": ["N2", "H2O"], "a": 1e-10, "b": 0.0, "c": 0.0, "tmin": 0, "tmax": 0, "idx": 1, "code": 1})]
     off = len(extra)
+    api = bool(case.get("api")) and fmt == "naunet"
+    mods = {int(k): v for k, v in (case.get("rate_mod") or {}).items() if int(k) < len(lrs)}
+    if api:
+        labels.append("api-built-unindexed")
+    if mods:
+        labels.append("rate-modifier")
+
+    def build():
+        if api:
+            from naunet.network import Network
+            from naunet.reactions.reaction import Reaction
+            from naunet.reactiontype import ReactionType
+
+            net = Network(reactions=[Reaction(list(lr["r"]), list(lr["p"]), float(lr["tmin"]), float(lr["tmax"]), lr["a"], lr["b"], lr["c"], ReactionType(int(lr["code"])), -1) for lr in lrs])
+            keyof = lambda pos: pos  # unindexed: the renderer numbers the reactions by position
+        else:
+            net = c05.build_file_network(fmt, lrs, case.get("variant", {}), extra)
+            # index-less formats (UCLCHEM, KROME without idx): the renderer numbers the reactions by position
+            keyof = lambda pos: (net.reaction_list[pos + off].idxfromfile if net.reaction_list[pos + off].idxfromfile != -1 else pos + off)
+        if mods:
+            net.rate_modifier = {keyof(pos): expr for pos, expr in mods.items()}
+        return net
+
+    if api:
+        off = 0
     with N.Scratch() as d:
         try:
-            net = c05.build_file_network(fmt, lrs, case.get("variant", {}), extra)
+            net = build()
             direct = R.render_rates(net, d / "direct", backends=(("cvode", "dense", "cpu"),))["dense"]
         except Exception:
             return False  # the direct rendering itself is refused: nothing to compare
         N.reset_naunet_state()
-        net = c05.build_file_network(fmt, lrs, case.get("variant", {}), extra)
+        net = build()
         try:
             net.export("vtexp", solver="cvode", method="dense", device="cpu", prefix=str(d), overwrite=True)
         except Exception as e:
@@ -246,6 +278,8 @@ def export_clause(case, failures, labels):
                     if not (math.isfinite(a) and math.isfinite(b)):
                         continue
                     key = f"export-law/{fmt}:{lr['code']}"
+                    if i in mods:
+                        key = f"export/rate-modifier-not-carried/{'api-unindexed' if api else 'file'}"
                     if all(k != key for k, _ in failures):
                         failures.append((key, f"{fmt} code {lr['code']!r} (first reactant {lr['r'][0]}): direct k={a!r}, exported-and-re-rendered k={b!r} at T={P['Tgas']:.4g}"))
     return True
